@@ -47,6 +47,9 @@ def model_case(draw, classes, containers=("da", "ds", "list"), full_modes=False,
             spec.update(sp_alpha=draw(st.sampled_from([1e-3, 1e-2, 0.0])), sp_beta=draw(st.sampled_from([1e-3, 0.0])))
         else:
             lo = 2 if M.is_rotator(cls) else 1
+            if M.is_rotator(cls):
+                # rotating a numerically null mode (beyond the rank of the centred data) is ill-defined
+                rank = max(lo, min(rank, n - 1 if spec["center"] else n))
             spec["n_modes"] = rank if full_modes else draw(st.integers(lo, max(lo, rank)))
     else:
         al = list(M.cross_alpha({"cls": cls, "alpha": [draw(M.alphas), draw(M.alphas)]}))
@@ -73,6 +76,8 @@ def model_case(draw, classes, containers=("da", "ds", "list"), full_modes=False,
                 if use_pca[i] and npm[i] != "all" and npm[i] < lo:
                     npm[i] = lo
         spec.update(alpha=al, use_pca=use_pca, n_pca_modes=npm, irr=1.0)
+        if M.is_rotator(cls):
+            rank = max(lo, min(rank, n - 1))
         spec["n_modes"] = rank if full_modes else draw(st.integers(lo, max(lo, rank)))
         spec["_pp"] = pp
     if M.is_rotator(cls):
